@@ -2,9 +2,9 @@ package main
 
 import (
 	"fmt"
-	"os"
 	"go/token"
 	"go/types"
+	"os"
 	"strings"
 
 	"golang.org/x/tools/go/ssa"
@@ -18,9 +18,9 @@ const (
 
 func init() {
 	register(&Property{
-		ID:  "C06",
-		Run: runC06,
-		Explain: "Static structural necessary conditions of fan-out isolation, checked independently on each of the four sibling implementations (logs/metrics/traces/profiles; the outcomes must agree): (R1) clone discipline – every send to a mutating consumer passes a fresh clone, or the incoming payload at most at one site, outside loops, guarded by len(readonly)==0 and !payload.IsReadOnly(); every send to a read-only consumer passes the incoming payload; (R2) the clone function returns a fresh payload that was the destination of CopyTo from its argument; (R3) MarkReadOnly lies after the mutable sends and before the read-only sends and is skipped only when fewer than two read-only consumers share the payload or it is already read-only; (R4) every consumer is called (loops exit only at their index bound, the mutable loop covers [0,len-1) and the remaining element is sent separately, the read-only loop ranges over all), every result flows into the single returned accumulator; (R5) the constructor partitions consumers by Capabilities().MutatesData and the fan-out advertises mutation only when all consumers mutate; (R6) the MutatesData advertised by a pipeline's capabilities node depends on the fan-out node and every processor, the connector's aggregate on itself and all next consumers, and the exporter helper adds MutatesData whenever either batching configuration is enabled.",
+		ID:         "C06",
+		Run:        runC06,
+		Explain:    "Static structural necessary conditions of fan-out isolation, checked independently on each of the four sibling implementations (logs/metrics/traces/profiles; the outcomes must agree): (R1) clone discipline – every send to a mutating consumer passes a fresh clone, or the incoming payload at most at one site, outside loops, guarded by len(readonly)==0 and !payload.IsReadOnly(); every send to a read-only consumer passes the incoming payload; (R2) the clone function returns a fresh payload that was the destination of CopyTo from its argument; (R3) MarkReadOnly lies after the mutable sends and before the read-only sends and is skipped only when fewer than two read-only consumers share the payload or it is already read-only; (R4) every consumer is called (loops exit only at their index bound, the mutable loop covers [0,len-1) and the remaining element is sent separately, the read-only loop ranges over all), every result flows into the single returned accumulator; (R5) the constructor partitions consumers by Capabilities().MutatesData and the fan-out advertises mutation only when all consumers mutate; (R6) the MutatesData advertised by a pipeline's capabilities node depends on the fan-out node and every processor, the connector's aggregate on itself and all next consumers, and the exporter helper adds MutatesData whenever either batching configuration is enabled.",
 		NotDecided: "Equality of the cloned content (C07/C08); mutation performed asynchronously after return other than through the never-share rule; that third-party consumers honour their declared capabilities.",
 		Assumes:    []string{"pdata CopyTo produces an independent deep copy (C07)", "MarkReadOnly makes all mutators panic (C07.R1)"},
 		Technique:  "static analysis: value provenance and guard sets on SSA, loop-exit classification, backward-slice dependence, sibling cross-check",
@@ -385,7 +385,9 @@ func runC06Caps(c *Ctx) {
 	// capabilities node: calls to capabilityconsumer.New*(next, capability)
 	n := 0
 	for _, fn := range p.AllSrcFuncs(gpk) {
-		for _, ci := range callsNamed(fn, func(f *types.Func) bool { return f.Pkg() != nil && f.Pkg().Path() == pkgCapCons && strings.HasPrefix(f.Name(), "New") }) {
+		for _, ci := range callsNamed(fn, func(f *types.Func) bool {
+			return f.Pkg() != nil && f.Pkg().Path() == pkgCapCons && strings.HasPrefix(f.Name(), "New")
+		}) {
 			capArg := ci.Common().Args[1]
 			n++
 			site := fmt.Sprintf("%s in %s", calleeOf(ci).Name(), fnName(fn))
